@@ -4,6 +4,7 @@ package psdiff
 
 import (
 	"fmt"
+	"io"
 	"strings"
 
 	"seehuhn.de/go/postscript"
@@ -76,7 +77,20 @@ func Run(toks []psref.Tok, cfg psgen.Config) Result {
 	text := psgen.Spell(toks)
 	intp := postscript.NewInterpreter()
 	intp.MaxOps = 2_000_000
-	ierr := intp.ExecuteString(text)
+	// the program reaches the interpreter through each of its entry points
+	// in turn (which one is a function of the text): ExecuteString, Execute
+	// with a reader that offers the extra interfaces of strings.Reader
+	// (io.ByteReader, io.Seeker, io.WriterTo ...), Execute with a bare
+	// io.Reader
+	var ierr error
+	switch len(text) % 3 {
+	case 0:
+		ierr = intp.ExecuteString(text)
+	case 1:
+		ierr = intp.Execute(strings.NewReader(text))
+	default:
+		ierr = intp.Execute(struct{ io.Reader }{strings.NewReader(text)})
+	}
 	res.ImplErr = pscanon.ErrorName(ierr)
 	if rerr != nil {
 		res.RefErr = rerr.Name
@@ -99,6 +113,72 @@ func Run(toks []psref.Tok, cfg psgen.Config) Result {
 	is := pscanon.State(intp)
 	if rs != is {
 		res.Msg = fmt.Sprintf("final states differ\n %s\nprogram: %s", firstDiff(rs, is), clip(text))
+	}
+	return res
+}
+
+// RunHistory runs several programs one after the other on one reference
+// machine and on one library interpreter (consecutive Execute calls) and
+// compares the error name of every call and the final state.  What a call
+// leaves on the stacks stays there for the next one.
+func RunHistory(progs [][]psref.Tok, cfg psgen.Config) Result {
+	m := cfg.NewMachine()
+	intp := postscript.NewInterpreter()
+	intp.MaxOps = 2_000_000
+	res := Result{Ops: m.OpsUsed}
+	var texts []string
+	for k, toks := range progs {
+		m.Stopped = false
+		rerr := m.Run(toks)
+		if m.Unsupported != "" {
+			res.Skip = "outside the domain: " + m.Unsupported
+			return res
+		}
+		if m.Ambiguous != "" {
+			res.Skip = "reference leaves it open: " + m.Ambiguous
+			return res
+		}
+		text := psgen.Spell(toks)
+		texts = append(texts, text)
+		ierr := intp.ExecuteString(text)
+		iname := pscanon.ErrorName(ierr)
+		rname := ""
+		if rerr != nil {
+			rname = rerr.Name
+		}
+		if k == len(progs)-1 {
+			res.RefErr, res.ImplErr = rname, iname
+		}
+		switch {
+		case rname == "" && ierr != nil:
+			res.Msg = fmt.Sprintf("call %d of %d on one interpreter: the library fails with %v where the reference succeeds\nprograms: %q", k+1, len(progs), ierr, texts)
+			return res
+		case rname != "" && ierr == nil:
+			res.Msg = fmt.Sprintf("call %d of %d on one interpreter: the reference prescribes the error %q, the library reports none\nprograms: %q", k+1, len(progs), rname, texts)
+			return res
+		case rname != "" && !errMatches(rname, iname):
+			res.Msg = fmt.Sprintf("call %d of %d on one interpreter: the reference prescribes the error %q, the library reports %q (%v)\nprograms: %q", k+1, len(progs), rname, iname, ierr, texts)
+			return res
+		}
+		if rname != "" && k < len(progs)-1 {
+			// after an error the operand stack is not compared (the library
+			// pops operands before it checks them): both sides start the next
+			// call with an empty operand stack; dictionary stack and
+			// definitions stay
+			m.OS = m.OS[:0]
+			intp.Stack = intp.Stack[:0]
+		}
+	}
+	if res.RefErr != "" {
+		return res
+	}
+	rs := m.State()
+	if m.MaxLenInState {
+		res.Skip = "a maxlength result is part of the final state (any value >= length is valid)"
+		return res
+	}
+	if is := pscanon.State(intp); rs != is {
+		res.Msg = fmt.Sprintf("final states differ after %d calls on one interpreter\n %s\nprograms: %q", len(progs), firstDiff(rs, is), texts)
 	}
 	return res
 }
